@@ -80,9 +80,11 @@ CHECKS = {
     text='Theorems (Coq): printed integers of any size and sign and printed strings over ASCII (with the escapes wal_str writes) read back as themselves in every position; '
          'STRUCTURAL round trip (RoundTrip.v, induction on expression size): every expression built from integers, strings, plain symbols, booleans, all 106 operators and '
          'arbitrarily nested lists prints to a text that reads back as the same expression, at top level and in every position. '
-         'PARTIAL: floats, forms the printer writes specially (quote forms, a@b, {array}), escaped identifiers and shorthand = long form for every operand are decided by '
-         'the differential check on expressions generated from the reader grammar (and by computation in the model on representative instances).' + DIFF,
-    technique='Coq proof (parser inverts printer: atoms in context, lists by induction on size) + differential correspondence + read-print-read oracle'),
+         'SHORTHANDS (Shorthand.v): for every operand e of that class, in every position, \'e `e ,e ,@e read as quote / quasiquote / unquote / unquote-splice of e, ~s and #s as '
+         'resolve-scope / resolve-group of the symbol, e@k as (reval e k), e[i] and e[h:l] as (slice e i) / (slice e h l) for integers of any size; quote and quasiquote forms of '
+         'the class round-trip through the printer. PARTIAL: floats, nested special forms inside lists, {array}, escaped identifiers, non-integer offsets/bounds and the '
+         'equivalence of the three bracket kinds are decided by the differential check on expressions generated from the reader grammar.' + DIFF,
+    technique='Coq proof (parser inverts printer: atoms in context, lists by induction on size; one in-context theorem per shorthand) + differential correspondence + read-print-read oracle'),
  'C12': dict(
     text='Theorems (Coq): qualified names address exactly one trace; with one trace the qualified and plain name agree; stepping a named trace moves only it; the loaded-trace '
          'count equals the number of traces over every load/unload sequence; a failed load changes nothing; unload removes exactly that trace; and for the WHOLE evaluator '
